@@ -14,6 +14,9 @@ type Walk struct {
 	// negation, constant, or phi (those are handled by the walker). It
 	// returns known=false to follow both branches.
 	Atom func(v ssa.Value) (val, known bool)
+	// AtomP is like Atom but also receives a resolver for phis along the
+	// path walked so far (nil result when the phi's block is not on the path).
+	AtomP func(v ssa.Value, phi func(*ssa.Phi) ssa.Value) (val, known bool)
 	// MaxVisits bounds how often one block may appear on a path (default 2).
 	MaxVisits int
 	// MaxTraces bounds the number of traces returned (default 4096).
@@ -23,6 +26,7 @@ type Walk struct {
 // Trace is one path: the instructions executed in order, and how it ended.
 type Trace struct {
 	Instrs []ssa.Instruction
+	Blocks []*ssa.BasicBlock
 	End    ssa.Instruction // Return or Panic; nil if the path was cut by the visit bound
 }
 
@@ -60,10 +64,32 @@ func (w Walk) eval(v ssa.Value, stack []*ssa.BasicBlock, depth int) (bool, bool)
 			}
 		}
 	}
+	if w.AtomP != nil {
+		return w.AtomP(v, PhiResolver(stack))
+	}
 	if w.Atom != nil {
 		return w.Atom(v)
 	}
 	return false, false
+}
+
+// PhiResolver returns a function resolving a phi to the operand selected by
+// the given block path (last entry of the phi's block wins).
+func PhiResolver(stack []*ssa.BasicBlock) func(*ssa.Phi) ssa.Value {
+	return func(x *ssa.Phi) ssa.Value {
+		for i := len(stack) - 1; i >= 1; i-- {
+			if stack[i] != x.Block() {
+				continue
+			}
+			for j, p := range x.Block().Preds {
+				if p == stack[i-1] && j < len(x.Edges) {
+					return x.Edges[j]
+				}
+			}
+			return nil
+		}
+		return nil
+	}
 }
 
 // Traces enumerates paths from the entry of fn.
@@ -107,7 +133,7 @@ func (w Walk) Traces(fn *ssa.Function) []Trace {
 		last := b.Instrs[len(b.Instrs)-1]
 		switch t := last.(type) {
 		case *ssa.Return, *ssa.Panic:
-			out = append(out, Trace{Instrs: append([]ssa.Instruction(nil), instrs...), End: last})
+			out = append(out, Trace{Instrs: append([]ssa.Instruction(nil), instrs...), Blocks: append([]*ssa.BasicBlock(nil), stack...), End: last})
 			return
 		case *ssa.If:
 			if len(b.Succs) == 2 {
